@@ -2,7 +2,18 @@
 
 use core::ops::{Shl, Shr};
 
-use crate::{ibig::IBig, ubig::UBig, Sign::*};
+use crate::{error::panic_allocate_too_much, ibig::IBig, ubig::UBig, Sign::*};
+
+/// Number of bits to shift the power of the odd part back by (`exp * shift`).
+///
+/// A product that does not fit in `usize` means that the result has more than `usize::MAX` bits.
+#[inline]
+fn pow_shift(exp: usize, shift: usize) -> usize {
+    match exp.checked_mul(shift) {
+        Some(n) => n,
+        None => panic_allocate_too_much(),
+    }
+}
 
 impl UBig {
     /// Raises self to the power of `exp`.
@@ -23,7 +34,7 @@ impl UBig {
                 .as_typed()
                 .pow(exp)
                 .into_typed()
-                .shl(exp * shift)
+                .shl(pow_shift(exp, shift))
         } else {
             self.repr().pow(exp)
         };
@@ -56,7 +67,7 @@ impl IBig {
                 .as_typed()
                 .pow(exp)
                 .into_typed()
-                .shl(exp * shift)
+                .shl(pow_shift(exp, shift))
         } else {
             mag.pow(exp)
         };
@@ -116,7 +127,7 @@ pub(crate) mod repr {
             b if b.is_power_of_two() => {
                 return Repr::zero()
                     .into_typed()
-                    .set_bit(exp * base.trailing_zeros() as usize)
+                    .set_bit(super::pow_shift(exp, base.trailing_zeros() as usize))
             }
             _ => {}
         }
